@@ -149,6 +149,7 @@ def obligations(tier, seed):
         ('braced', dict(form='braced', nsym=n)),
         ('empty-quoted', dict(form='quoted', nsym=0)),
         ('comments', dict(form='bare', nsym=1, comment=2)),
+        ('quoted+comment', dict(form='quoted', nsym=2, comment=1)),
         ('tabs+blank-lines', dict(form='quoted', nsym=1, ws=' \t ', blank_lines=True)),
         ('crlf', dict(form='bare', nsym=1, nl='\r\n')),
         ('continuation', dict(form='bare', nsym=1, cont=1)),
